@@ -174,6 +174,9 @@ type Augment struct {
 	// rendered without a prefix (an unprefixed name in a schema node identifier
 	// denotes the current module, RFC 7950 6.5).
 	Bare bool `json:"bare,omitempty"`
+	// Relative: the path is written without the leading "/" (not allowed for
+	// an augment at the top level of a module: it names nothing).
+	Relative bool `json:"relative,omitempty"`
 }
 
 // Deviate is one deviate statement.
